@@ -154,6 +154,95 @@ fn expr_reads(e: &program_structure::ir::Expression, out: &mut Vec<String>) {
     }
 }
 
+fn val_nodes(e: &program_structure::ir::Expression, stmt: usize, out: &mut Vec<String>) {
+    use program_structure::ir::value_meta::{ValueMeta, ValueReduction};
+    use program_structure::ir::{AccessType, Expression::*};
+    let kind = match e {
+        Variable { .. } => "Variable",
+        Number(..) => "Number",
+        InfixOp { .. } => "InfixOp",
+        PrefixOp { .. } => "PrefixOp",
+        SwitchOp { .. } => "SwitchOp",
+        Call { .. } => "Call",
+        InlineArray { .. } => "InlineArray",
+        Access { .. } => "Access",
+        Update { .. } => "Update",
+        Phi { .. } => "Phi",
+    };
+    match e.value() {
+        Some(ValueReduction::FieldElement { value: v }) => out.push(format!("[{}, \"{}\", \"{}\"]", stmt, kind, v)),
+        Some(ValueReduction::Boolean { value: b }) => out.push(format!("[{}, \"{}\", {}]", stmt, kind, b)),
+        None => {}
+    }
+    match e {
+        InfixOp { lhe, rhe, .. } => {
+            val_nodes(lhe, stmt, out);
+            val_nodes(rhe, stmt, out);
+        }
+        PrefixOp { rhe, .. } => val_nodes(rhe, stmt, out),
+        SwitchOp { cond, if_true, if_false, .. } => {
+            val_nodes(cond, stmt, out);
+            val_nodes(if_true, stmt, out);
+            val_nodes(if_false, stmt, out);
+        }
+        Call { args, .. } => args.iter().for_each(|a| val_nodes(a, stmt, out)),
+        InlineArray { values, .. } => values.iter().for_each(|a| val_nodes(a, stmt, out)),
+        Access { access, .. } => {
+            for a in access {
+                if let AccessType::ArrayAccess(i) = a {
+                    val_nodes(i, stmt, out);
+                }
+            }
+        }
+        Update { access, rhe, .. } => {
+            for a in access {
+                if let AccessType::ArrayAccess(i) = a {
+                    val_nodes(i, stmt, out);
+                }
+            }
+            val_nodes(rhe, stmt, out);
+        }
+        _ => {}
+    }
+}
+
+/// valdump <hex source of one definition> -> JSON list of [statement offset, node kind, value] for every expression node the real
+/// pipeline attached a constant to (after SSA and value propagation)
+fn val_dump(src: &str) -> String {
+    use program_structure::ir::Statement;
+    let def = match parse_definition(src) {
+        Some(d) => d,
+        None => return "PARSEERR".to_string(),
+    };
+    let mut reports = ReportCollection::new();
+    let cfg = match def.into_cfg(&Curve::Bn254, &mut reports) {
+        Ok(cfg) => cfg,
+        Err(e) => return format!("LIFTERR {}", e),
+    };
+    let cfg = match cfg.into_ssa() {
+        Ok(cfg) => cfg,
+        Err(_) => return "SSAERR".to_string(),
+    };
+    let mut out = Vec::new();
+    for b in cfg.iter() {
+        for s in b.iter() {
+            let id = s.meta().start();
+            match s {
+                Statement::Substitution { rhe, .. } => val_nodes(rhe, id, &mut out),
+                Statement::IfThenElse { cond, .. } => val_nodes(cond, id, &mut out),
+                Statement::Return { value, .. } => val_nodes(value, id, &mut out),
+                Statement::Assert { arg, .. } => val_nodes(arg, id, &mut out),
+                Statement::ConstraintEquality { lhe, rhe, .. } => {
+                    val_nodes(lhe, id, &mut out);
+                    val_nodes(rhe, id, &mut out);
+                }
+                _ => {}
+            }
+        }
+    }
+    format!("[{}]", out.join(", "))
+}
+
 /// ssadump <hex source of one definition> -> JSON list of blocks after SSA conversion (the view audited by specs/C14ssa.py)
 fn ssa_dump(src: &str) -> String {
     use program_structure::ir::{Expression, Statement};
@@ -292,6 +381,10 @@ fn main() {
         }
         let r = panic::catch_unwind(|| match w[0] {
             "analyzefile" => analyze_file(w[1], &w[2..]),
+            "valdump" => match String::from_utf8(unhex(w.get(1).unwrap_or(&""))) {
+                Ok(s) => val_dump(&s),
+                Err(_) => "BADUTF8".to_string(),
+            },
             "ssadump" => match String::from_utf8(unhex(w.get(1).unwrap_or(&""))) {
                 Ok(s) => ssa_dump(&s),
                 Err(_) => "BADUTF8".to_string(),
